@@ -16,7 +16,7 @@ PROP = dict(
           ">=2 results with a config deletion/overwrite between them, or a syntax error followed by a valid result. Distinct = distinct case JSON."),
     assumptions=["reference interpreter reflects the documented format rules", "inputs contain no line of 64 KiB or more"],
     units=[
-        R("rapid", "A", "./c02", "TestC02Rapid", (1500, 12), (40000, 16)),
+        R("rapid", "A", "./c02", "TestC02Rapid", (2500, 16), (40000, 16)),
         F("fuzz", "./c02", "FuzzC02", 120),
     ],
 )
